@@ -15,7 +15,10 @@ META = dict(
               "execute, RetryPolicy.call/execute, AsyncRetryPolicy.call/execute at N=3 (world: success, {TRANSIENT, "
               "PERMANENT} x {exception, result}, AbortRetryError, CancelledError; symbolic max_attempts, abort_if answers, "
               "handler decisions, budget tokens, before_sleep) and vs Retry.context, AsyncRetry.context, Policy.context, "
-              "AsyncPolicy.context, @retry on a sync and an async function at N=2; timed world (symbolic durations, "
+              "AsyncPolicy.context, @retry on a sync and an async function at N=2; forwarding jobs (N=2): every sugar layer incl. "
+              "the four from_config constructors, with classes {TRANSIENT, UNKNOWN}, TRANSIENT limit, UNKNOWN cap, budget, "
+              "abort_if, and handler / before_sleep / sleeper placed at policy level and/or call level by six solver "
+              "booleans, plus a timed variant (symbolic deadline, durations, raw delays); timed world (symbolic durations, "
               "overshoots, deadline, raw delays) for the four runner twins at N=2; with a half-open-eligible breaker behind "
               "a spy: Policy.call vs Policy.execute, AsyncPolicy.call, AsyncPolicy.execute at N=2",
         thorough="N=4 / N=3 / N=3 / N=3",
@@ -128,6 +131,28 @@ def jobs(tier):
     for entry in ["retry.context", "aretry.context", "policy.context", "apolicy.context", "deco.call", "adeco.call"]:
         out.append(dict(name=f"sugar:{entry}", harness="rv.props.c12:h_pair",
                         params=dict(base, N=N, ref="retry.call", entry=entry), max_wall_s=wall, weight=2))
+    # forwarding: every constructor / per-call argument must reach the runner through every sugar layer
+    # (policy-level and call-level handler / before_sleep / sleeper, budget, caps, per-class limits, deadline)
+    fwd = ["retry.execute", "aretry.call", "aretry.execute", "policy.call", "policy.execute", "apolicy.call",
+           "apolicy.execute", "rp.call", "rp.execute", "arp.call", "arp.execute", "retry.context", "aretry.context",
+           "policy.context", "apolicy.context", "retrycfg.call", "retrycfg.execute", "aretrycfg.call", "aretrycfg.execute",
+           "rpcfg.call", "rpcfg.execute", "arpcfg.call", "arpcfg.execute"]
+    for entry in fwd + ["deco.call", "adeco.call"]:
+        deco = entry.startswith(("deco", "adeco"))
+        # (i) placements of handler / before_sleep / sleeper at policy and call level
+        out.append(dict(name=f"fwd-place:{entry}", harness="rv.props.c12:h_pair",
+                        params=dict(N=N, kinds=["ok", "exc"], classes=["TRANSIENT"], place=True, operation="op", ref="retry.call",
+                                    pin_place=({"h_call": False, "b_call": False, "s_call": False} if deco else {"b_pol": True}),
+                                    entry=entry), max_wall_s=wall, weight=3))
+        # (ii) caps, per-class limit, budget, abort_if, result classifier
+        out.append(dict(name=f"fwd-caps:{entry}", harness="rv.props.c12:h_pair",
+                        params=dict(N=N, kinds=["ok", "exc", "res"], classes=["TRANSIENT", "UNKNOWN"], limits=["TRANSIENT"],
+                                    cap="sym", budget="sym", operation="op", abort=True, ref="retry.call", entry=entry),
+                        max_wall_s=wall, weight=3))
+        # (iii) deadline and strategy values
+        out.append(dict(name=f"fwd-timed:{entry}", harness="rv.props.c12:h_pair",
+                        params=dict(N=N, kinds=["exc", "res"], classes=["TRANSIENT"], timed=True, strat=dict(raw="real"),
+                                    operation="op", ref="retry.call", entry=entry), max_wall_s=wall, weight=2))
     for entry in ["retry.execute", "aretry.call", "aretry.execute"]:
         out.append(dict(name=f"timed:{entry}", harness="rv.props.c12:h_pair",
                         params=dict(N=N, kinds=["ok", "exc", "res"], classes=["TRANSIENT"], timed=True, strat=dict(raw="real"),
